@@ -359,7 +359,7 @@ def table_names():
     return names
 
 
-def schema_ok(kind, res, args):
+def schema_ok(kind, res, args, j=1):
     import pandas as pd
     if not kind.startswith("tab:"):
         return True
@@ -367,6 +367,13 @@ def schema_ok(kind, res, args):
     cols, idx = R.SCHEMAS[k]
     if k == "ned_or_array":
         return (not isinstance(res, pd.DataFrame)) or list(res.columns) == cols
+    if k in ("estimates", "estimates_table"):
+        models = [a for a in args if hasattr(a, "states") and hasattr(a, "update_estimates")]
+        if not models:
+            return True
+        want = list(models[min(j - 3, len(models) - 1) if k == "estimates_table" else 0].states)
+        have = list(res.columns) if isinstance(res, pd.DataFrame) else (list(res.index) if isinstance(res, pd.Series) else None)
+        return have == want
     if k == "innovations":
         return isinstance(res, dict) and all(isinstance(v, pd.DataFrame) for v in res.values())
     if k == "same_as_input":
@@ -467,7 +474,7 @@ def run_program(m, scen, adp, prog):
             for j, (r, kd) in enumerate(zip(results, res_kinds), start=1):
                 pool[("r", n, j)] = r
                 res_fp.append(fp(r))
-                if not schema_ok(kd, r, passed):
+                if not schema_ok(kd, r, passed, j):
                     sch = False
                     detail = detail or "result %d does not carry the schema of %s" % (j, kd)
         if results is None:
